@@ -140,6 +140,7 @@ package blockstore
 //@   site[existence_checked_under_the_blocks_key] invoke:Batching.Has : arg2 == entryKey(blockCid(b))
 //@   site[written_under_the_blocks_key] invoke:Batch.Put : arg2 == entryKey(blockCid(b)) && arg3 == blockBytes(b)
 //@   site[single_block_is_put] call:blockstore.Put : len(blocks) == 1 && arg2 == blocks[0]
+//@   loop 0 continue[a_block_is_skipped_only_if_present] called("invoke:Batch.Put#0") || (!bs.writeThrough && res("invoke:Batching.Has#0", 1) == nil && res("invoke:Batching.Has#0", 0))
 //@   site[batch_committed] invoke:Batch.Commit : rangeindex + 1 == len(blocks) || len(blocks) == 0
 //@   ensures[commit_failure_reported] called("invoke:Batch.Commit#0") && res("invoke:Batch.Commit#0", 0) != nil ==> err != nil
 
@@ -200,3 +201,5 @@ package blockstore
 //@   loop 0 invariant[only_real_blocks_kept] forall(j, 0, len(toPut), !isIdentity(blockCid(toPut[j])))
 //@   site[keeps_only_real_blocks] builtin:append : !isIdentity(blockCid(bl)) && len(arg1) == 1 && arg1[0] == bl
 //@   site[stores_what_was_kept] invoke:Blockstore.PutMany : arg0 == b.bs && arg2 == toPut
+//@   site[never_stores_an_identity_block] invoke:Blockstore.Put : !isIdentity(blockCid(arg2))
+//@   ensures[goes_through_the_filter] err == nil ==> called("invoke:Blockstore.PutMany#0")
